@@ -554,7 +554,7 @@ class OpenDocument:
             if what_it_is == IS_FILENAME:
                 self._z.write(fileobj, folder + arcname, zipfile.ZIP_STORED)
             else:
-                zi = zipfile.ZipInfo(str(arcname), self._now)
+                zi = zipfile.ZipInfo(str(folder + arcname), self._now)
                 zi.compress_type = zipfile.ZIP_STORED
                 zi.external_attr = UNIXPERMS
                 self._z.writestr(zi, fileobj)
